@@ -506,11 +506,18 @@ def run_for(prop: str, ctx: Ctx, max_variants: int = 1200) -> dict:
     }
     seeds = [r for r in corpus_results if r[0] == 'seed']
     refacs = [r for r in corpus_results if r[0] == 'refactoring']
-    for r in seeds:
-        if r[2] == 'silent':
-            print('SELFTEST-GAP stored seeded defect %s is not reported by the %s check' % (r[1], prop))
     import json as _json
     from .core import VERIF as _V
+    known_miss = set()
+    for r in seeds:
+        if r[2] == 'silent':
+            try:
+                if _json.load(open(os.path.join(_V, 'seeded', r[1], 'meta.json'))).get('known_miss'):
+                    known_miss.add(r[1])
+            except Exception:
+                pass
+            print('%s stored seeded defect %s is not reported by the %s check' % (
+                'SELFTEST-NOTE known miss (beyond the method, recorded):' if r[1] in known_miss else 'SELFTEST-GAP', r[1], prop))
     known_lim = set()
     for r in refacs:
         try:
@@ -525,6 +532,7 @@ def run_for(prop: str, ctx: Ctx, max_variants: int = 1200) -> dict:
         'seeded_defects_replayed': len(seeds), 'seeded_defects_reported': len([r for r in seeds if r[2] != 'silent']),
         'refactorings_replayed': len(refacs), 'refactorings_silent': len([r for r in refacs if r[2] == 'silent']),
         'refactorings_known_limitation': sorted(known_lim & set(r[1] for r in refacs if r[2] != 'silent')),
+        'seeded_defects_known_miss': sorted(known_miss),
         'corpus_patches_not_applicable_to_current_tree': skipped,
     })
     print('selftest %s: %d breaking variants, %d flagged (%d by violation), %d survivors; %d twins, %d silent; '
